@@ -1,8 +1,41 @@
 (* C39 — the correspondence cases: reconcile histories (Spec.case) and direct calls of
    setConditionOnPool / hasCondition on condition lists (Conditions.ccase). *)
-From Coq Require Import List NArith Bool.
+From Coq Require Import List NArith Arith Bool.
 From Verif.C39 Require Import Model Spec Conditions.
 
-Inductive xcase := XRounds (c : case) | XCond (c : ccase).
+(* handleErr: what happens to the single work item after a pass (maxRetries = 5) *)
+Inductive qaction := QForget | QRequeue | QDrop.
+Definition max_retries : nat := 5.
+Definition handle_err (failed : bool) (requeues : nat) : qaction :=
+  if negb failed then QForget else if Nat.ltb requeues max_retries then QRequeue else QDrop.
+(* observable: (rate limited re-adds, forgets) *)
+Definition qobs (a : qaction) : nat * nat :=
+  match a with QForget => (0, 1) | QRequeue => (1, 0) | QDrop => (0, 1) end%nat.
+(* spec: a failed pass is retried unless the retry budget is used up; a clean pass clears the retry counter *)
+Definition ok_handle (failed : bool) (requeues adds forgets : nat) : bool :=
+  if failed then (if Nat.ltb requeues 5 then Nat.eqb adds 1 && Nat.eqb forgets 0 else Nat.eqb adds 0 && Nat.eqb forgets 1)
+  else Nat.eqb adds 0 && Nat.eqb forgets 1.
+
+Inductive xcase := XRounds (c : case) | XCond (c : ccase) | XErr (failed : bool) (requeues adds forgets : nat).
 Definition check_xcase (x : xcase) : bool * bool :=
-  match x with XRounds c => check_case c | XCond c => check_ccase c end.
+  match x with
+  | XRounds c => check_case c
+  | XCond c => check_ccase c
+  | XErr failed requeues adds forgets =>
+      (let '(a, f) := qobs (handle_err failed requeues) in Nat.eqb a adds && Nat.eqb f forgets,
+       ok_handle failed requeues adds forgets)
+  end.
+
+Lemma handle_err_meets_spec : forall failed requeues,
+  let '(a, f) := qobs (handle_err failed requeues) in ok_handle failed requeues a f = true.
+Proof.
+  intros failed requeues. unfold handle_err, ok_handle, max_retries.
+  destruct failed; simpl; auto. destruct (Nat.ltb requeues 5); reflexivity.
+Qed.
+
+(* a failed pass is re-queued (so the clean pass of c39_faults_then_clean_pass is attempted) for the first
+   five consecutive failures; after that the informer resync of run.go triggers the next pass *)
+Lemma failed_pass_requeued : forall requeues, requeues < 5 -> handle_err true requeues = QRequeue.
+Proof.
+  intros r H. unfold handle_err, max_retries. simpl. apply Nat.ltb_lt in H. rewrite H. reflexivity.
+Qed.
